@@ -70,7 +70,8 @@ PROPS = {
         "assumptions": [
             "part A (direct driver): re-merging merged content commits nothing; part B (real loops under the scheduler): uploads are counted in a write-free phase of 2N+2 rounds",
             "'bounded number of exchanges' is decided as: at most an in-flight and one pending upload per instance, none from the third round on",
-            "storage_force_snapshot_interval = 0 (no forced snapshots)",
+            "storage_force_snapshot_interval is generated: off, 1 h (never elapses: same clauses) or 15-60 ms (an upload is then also justified when, by the snapshots' own timestamps, the interval has passed since the instance's previous snapshot or the start)",
+            "every upload of an instance must be preceded, since the LMDB transaction its previous upload was the image of (snapshot meta data), by a commit of its application",
             "DBIs without the dupsort hack",
         ],
     },
@@ -78,8 +79,8 @@ PROPS = {
         "level": "exploration",
         "tests": [
             T("TestC02PairGrid", "kv", 1, 1, enum=True),
-            T("TestC02Merge", "kv", 20000, 3200000, shards=16),
-            T("TestC02Update", "kv", 1500, 160000, shards=16),
+            T("TestC02Merge", "kv", 20000, 16000000, shards=16),
+            T("TestC02Update", "kv", 1500, 800000, shards=16),
         ],
         "assumptions": [
             "a deleted version has an empty value (documented MUST for applications)",
@@ -147,7 +148,7 @@ PROPS = {
     },
     "C11": {
         "level": "exploration",
-        "tests": [T("TestC11Mirror", "kv", 4000, 480000, shards=16)],
+        "tests": [T("TestC11Mirror", "kv", 4000, 1920000, shards=16)],
         "known_tests": [T("TestKnownC11", "kv", 1, 1)],
         "assumptions": [
             "steady state: every step runs with the syncer's own bookkeeping of the last synced transaction id (changes made while the syncer is down are documented to be treated differently)",
@@ -159,7 +160,7 @@ PROPS = {
     "C12": {
         "level": "exploration",
         "tests": [
-            T("TestC12Cleaner", "recv", 20000, 3200000, shards=16),
+            T("TestC12Cleaner", "recv", 20000, 16000000, shards=16),
             T("TestC12ReceiveOnly", "fleet", 60, 6000, shards=8, qshards=2, procs=4),
         ],
         "assumptions": [
@@ -171,7 +172,7 @@ PROPS = {
     },
     "C13": {
         "level": "exploration",
-        "tests": [T("TestC13Sweeper", "kv", 1500, 96000, shards=16)],
+        "tests": [T("TestC13Sweeper", "kv", 1500, 768000, shards=16)],
         "assumptions": [
             "wall-clock cutoffs are bracketed by the times read before and after the pass; generated timestamps keep a 10 s margin from the cutoff (the exact >= vs > at a nanosecond boundary of the real clock is not forceable)",
             "entries the application writes during the pass may or may not be visited afterwards: only their byte integrity is asserted",
@@ -180,8 +181,8 @@ PROPS = {
     "C14": {
         "level": "exploration",
         "tests": [
-            T("TestC14Build", "codec", 30000, 3000000, shards=8),
-            T("TestC14Parse", "codec", 60000, 6000000, shards=8),
+            T("TestC14Build", "codec", 30000, 12000000, shards=8),
+            T("TestC14Parse", "codec", 60000, 24000000, shards=8),
             # invariant part: every value Lightning Stream writes is re-read with the independent reader
             # inside these harnesses (shadow captures/merges/projections, native merges, all format versions)
             T("TestC11Mirror", "kv", 1500, 160000, shards=16),
@@ -222,7 +223,7 @@ PROPS = {
     },
     "C18": {
         "level": "fault_enumeration",
-        "tests": [T("TestC18Atomic", "kv", 3000, 480000, shards=16)],
+        "tests": [T("TestC18Atomic", "kv", 3000, 3840000, shards=16)],
         "assumptions": [
             "stored timestamps are even and snapshot timestamps odd, so the reference merge needs no tie-break",
             "cancellation is injected before the merge starts (the merge checks the context after each DBI, so the first DBI is merged and then aborted)",
@@ -232,7 +233,7 @@ PROPS = {
     },
     "C19": {
         "level": "exploration",
-        "tests": [T("TestC19Strategies", "kv", 12000, 1600000, shards=16)],
+        "tests": [T("TestC19Strategies", "kv", 12000, 4800000, shards=16)],
         "assumptions": [
             "iterator decisions are pure functions of (key, stored value); iterators return nil, never an empty slice, for 'no value' (documented Iterator contract)",
             "little-endian host (integer keys compared as native unsigned integers)",
@@ -244,6 +245,8 @@ PROPS = {
             T("TestC20One", "kv", 30000, 3200000, shards=16),
             T("TestC20DBI", "kv", 10000, 1600000, shards=16),
             T("TestC20Cycle", "kv", 800, 96000, shards=16),
+            T("TestC20Hostile", "kv", 3000, 320000, shards=16),
+            T("TestC20Disabled", "kv", 600, 32000, shards=8),
         ],
         "assumptions": [
             "default LMDB dupsort order (bytewise keys, bytewise values); integer-dup / reverse-dup DBIs are out of scope",
@@ -254,8 +257,8 @@ PROPS = {
     "C15": {
         "level": "exploration",
         "tests": [
-            T("TestC15Names", "codec", 60000, 4000000, shards=16),
-            T("TestC15Sanitiser", "codec", 3000, 60000, shards=4),
+            T("TestC15Names", "codec", 60000, 48000000, shards=16),
+            T("TestC15Sanitiser", "codec", 3000, 600000, shards=4),
             T("TestC15Listing", "recv", 400, 48000, shards=16, qshards=4, procs=4),
         ],
         "assumptions": [
